@@ -50,22 +50,24 @@ def str_to_num(s: str, fmt: str) -> Any[float, int]:
         ), f"Invalid sexagesimal number format: {fmt}"
 
         regexps = {
-            3: r"^(\-?\d+)[:; ](\d{2})$",
-            5: r"^(\-?\d+)[:; ](\d{2}\.\d+)$",
-            6: r"^(\-?\d+)[:; ](\d{2})[:; ](\d{2})$",
-            8: r"^(\-?\d+)[:; ](\d{2})[:; ](\d{2}.\d+)$",
-            9: r"^(\-?\d+)[:; ](\d{2})[:; ](\d{2}.\d+)$",
+            3: r"^(\-?)(\d+)[:; ](\d{2})$",
+            5: r"^(\-?)(\d+)[:; ](\d{2}\.\d+)$",
+            6: r"^(\-?)(\d+)[:; ](\d{2})[:; ](\d{2})$",
+            8: r"^(\-?)(\d+)[:; ](\d{2})[:; ](\d{2}.\d+)$",
+            9: r"^(\-?)(\d+)[:; ](\d{2})[:; ](\d{2}.\d+)$",
         }
 
         num_match = re.match(regexps[fraction_length], s)
         if not num_match:
             raise ValueError("Cannot convert string to number")
         num_match_groups = num_match.groups()
-        wholes = num_match_groups[0]
-        minutes = num_match_groups[1]
-        seconds = num_match_groups[2] if fraction_length in (6, 8, 9) else 0
+        sign = num_match_groups[0]
+        wholes = num_match_groups[1]
+        minutes = num_match_groups[2]
+        seconds = num_match_groups[3] if fraction_length in (6, 8, 9) else 0
 
-        return float(wholes) + (float(minutes) / 60) + (float(seconds) / 3600)
+        value = float(wholes) + (float(minutes) / 60) + (float(seconds) / 3600)
+        return -value if sign else value
 
     if "." in s:
         return float(s)
@@ -82,26 +84,28 @@ def num_to_str(n: Optional[float], fmt: str) -> Optional[str]:
         fraction_length = int(sexagesimal_match.groups()[1])
         assert fraction_length in (3, 5, 6, 8, 9)
 
+        sign = "-" if n < 0 else ""
+        n = abs(n)
         w = math.floor(n)
         m = (n - w) * 60
 
         if fraction_length == 3:
-            return f"{w}:{m:02.0f}"
+            return f"{sign}{w}:{m:02.0f}"
 
         if fraction_length == 5:
-            return f"{w}:{m:04.1f}"
+            return f"{sign}{w}:{m:04.1f}"
 
         mf = math.floor(m)
         s = (m - mf) * 60
         m = mf
 
         if fraction_length == 6:
-            return f"{w}:{m:02d}:{s:02.0f}"
+            return f"{sign}{w}:{m:02d}:{s:02.0f}"
 
         if fraction_length == 8:
-            return f"{w}:{m:02d}:{s:04.1f}"
+            return f"{sign}{w}:{m:02d}:{s:04.1f}"
 
         if fraction_length == 9:
-            return f"{w}:{m:02d}:{s:05.2f}"
+            return f"{sign}{w}:{m:02d}:{s:05.2f}"
 
     return fmt % n
